@@ -157,7 +157,9 @@ Proof.
     + apply (axis_named f None o); [discriminate|assumption].
     + apply (axis_named f (Some (SText t orc)) o); [intros x E; inversion E; subst; exact W|assumption].
     + apply (axis_named f (Some (SValue v)) o); [intros x E; inversion E; subst; apply wf_value; exact W|assumption].
-    + rewrite <- (apply_named_obj KAxis (abs (OAxis o)) (fst (axis_how f)) (snd (axis_how f)) (OAxis other)).
+    + replace (apply_named KAxis (abs (OAxis o)) (fst (axis_how f)) (snd (axis_how f)) AOther)
+        with (apply_named KAxis (abs (OAxis o)) (fst (axis_how f)) (snd (axis_how f)) (ASrc (SObj (OAxis other))))
+        by (rewrite apply_named_obj; reflexivity).
       apply (axis_named f (Some (SObj (OAxis other))) o); [intros x E; inversion E; subst; exact Logic.I|assumption].
   - (* NULL *)
     cbn [sset axis_set]. destruct s as [|t orc|v|]; cbn [of_osrc resolve fst snd sok]; try reflexivity.
@@ -167,4 +169,36 @@ Proof.
     + destruct (no_value (SValue v)) eqn:NV; [reflexivity|].
       rewrite (axis_auto_title (SValue v) o (wf_value v W) NV Logic.I).
       destruct (ok_or (string_pset (ax_title o) (SValue v))); reflexivity.
+Qed.
+
+(* ---- the invariant is kept ---- *)
+Ltac break_match :=
+  repeat match goal with
+  | |- context [match ?x with _ => _ end] =>
+    match type of x with
+    | sumbool _ _ => fail 1
+    | _ => destruct x eqn:?
+    end
+  end.
+
+Lemma axis_inv_def : axis_inv def_axis.
+Proof. unfold axis_inv, axis_lg. cbn. discriminate. Qed.
+
+Lemma axis_field_inv f s o : axis_inv o -> axis_inv (snd (axis_set_field f s o)).
+Proof.
+  intros IV. destruct f; cbn [axis_set_field];
+    unfold num_field, str_field, chr_or_key; break_match; cbn [snd]; try exact IV;
+    try (unfold axis_inv, axis_lg in *; cbn [ax_format ax_intv set_ax_title set_ax_begin set_ax_end set_ax_tlen set_ax_exp
+           set_ax_sub set_ax_dec set_ax_lpos set_ax_tpos set_ax_intv set_ax_format] in *; exact IV);
+    try (unfold axis_inv; rewrite lg_clear; discriminate);
+    try (unfold axis_inv; intros _; reflexivity).
+Qed.
+
+Lemma axis_set_inv o other name s : axis_inv o -> axis_inv other ->
+  axis_inv (snd (axis_set o name (resolve s (OAxis other)))).
+Proof.
+  intros IV IO. unfold axis_set. destruct name as [[|c n]|].
+  - destruct s; cbn [resolve snd]; try exact IO; try apply axis_inv_def; break_match; cbn [snd]; auto using axis_inv_def.
+  - destruct (axis_field_of (c :: n)); [apply axis_field_inv; auto|exact IV].
+  - destruct s; cbn [resolve snd]; try exact IO; try exact IV; break_match; cbn [snd]; auto using axis_inv_def.
 Qed.
